@@ -321,12 +321,18 @@ def _(prop, case, v):
 
 @rule("KF-C16-unsupplied-placeholder")
 def _(prop, case, v):
-    return case.get("kind") == "hist" and v.get("sig") == "placeholder-unsupplied"
+    # names only: an unsupplied :value is rejected since 464433d
+    return case.get("kind") == "hist" and v.get("sig") == "placeholder-unsupplied" and all(x.startswith("#") for x in v.get("unsupplied", [":"]))
 
 
 @rule("KF-C09-unevaluated-expression")
 def _(prop, case, v):
     # the judge only raises this signature when no stored item reaches the malformed expression
+    if case.get("kind") == "hist" and v.get("sig") == "placeholder-unsupplied" and v.get("returned") == 0 and \
+            all(x.startswith(":") for x in v.get("unsupplied", ["#"])):
+        # a read that returned nothing and uses a :value the request does not supply: an item that reaches the expression
+        # has it rejected (464433d), so no item reached it
+        return True
     return case.get("kind") == "hist" and v.get("sig") == "unevaluated-malformed-expression"
 
 
